@@ -12,6 +12,7 @@
   `lineOutcome` is a function of the line and the two templates only.
 -/
 import Model.Stream
+import Proofs.Stream
 
 namespace Jl.C07
 open Jl Jl.Scanner Jl.Stream
@@ -43,5 +44,30 @@ theorem tolerant_processes_every_line (os : List LineOutcome) (obs : Obs) (h : o
 example : specLines [0x61, 0x0A, 0x62, 0x0D, 0x0A, 0x63] = [[0x61], [0x62], [0x63]] := by decide
 example : specLines [0x61, 0x0A] = [[0x61]] := by decide
 example : specLines [0x0A, 0x0A] = [[], []] := by decide
+
+/-- The scanner is chunk-independent and loses, duplicates, merges or reorders nothing: for a
+    fault-free reader (any chunking, up to 100 consecutive empty reads) whose lines fit the
+    limit, iterating `Scan` yields exactly the lines of the concatenated data, in order. -/
+theorem scanner_yields_the_lines (i m : Nat) (reader : List ReadEv)
+    (hcalm : Calm 100 reader) (hfit : LinesFit m (allData reader))
+    (hle : i ≤ m) (hpow : m ≤ i * 2 ^ 200) :
+    ScansAs i m (Scanner.init i reader) (specLines (allData reader)) :=
+  A4_chunk_independence i m reader hcalm hfit hle hpow
+
+/-- C07: for a fault-free reader and writer, `Stream()` is exactly the per-line outcomes
+    (functions of the line and the templates only) folded through the processor, in input
+    order — whatever the chunking, the line endings and the mix of valid and invalid lines.
+    (`hmap`: every line's outcome is a real outcome — not the model's "stdlib answer missing"
+    marker; the size hypothesis `maxSize ≤ initSize·2^200` holds for 64 KiB → 10 MiB.) -/
+theorem stream_is_fold_of_line_outcomes (cfg : Cfg) (reader : List ReadEv) (ws : List WriteEv)
+    (hcalm : Calm 100 reader) (hfit : LinesFit cfg.maxSize (allData reader))
+    (hle : cfg.initSize ≤ cfg.maxSize) (hpow : cfg.maxSize ≤ cfg.initSize * 2 ^ 200)
+    (hws : ∀ w ∈ ws, w = WriteEv.ok) (os : List LineOutcome)
+    (hmap : mapOutcomes cfg (specLines (allData reader)) = .ok os) :
+    stream cfg reader ws = specObs cfg (allData reader) :=
+  C07_stream_eq_spec cfg reader ws hcalm hfit hle hpow hws os hmap
+
+/-- The sizes of the source satisfy the size hypothesis (64 KiB doubles 8 times into 10 MiB). -/
+example : (10485760 : Nat) ≤ 65536 * 2 ^ 200 ∧ (65536 : Nat) ≤ 10485760 := by decide
 
 end Jl.C07
